@@ -22,6 +22,11 @@ def projects():
     yield "submodule vs module", {"src/a.f90": mod("geom", "  interface\n    module subroutine w()\n    end subroutine w\n  end interface\n"),
                                   "src/b.f90": "submodule (geom) impl\ncontains\n  module subroutine w()\n  end subroutine w\nend submodule impl\n",
                                   "src/c.f90": mod("impl", t("p"))}
+    yield "numbered repeat next to a literal digit", {"src/a.f90": mod("ma", "  integer :: step\n"), "src/b.f90": mod("mb", "  integer :: step\n  integer :: step2\n", s("step3") + s("step"))}
+    gen = ("  type :: cell\n    integer :: v\n  contains\n    procedure :: lt\n    procedure :: le\n    procedure :: add\n    procedure :: sub\n"
+           "    generic :: operator(<) => lt\n    generic :: operator(<=) => le\n    generic :: operator(+) => add\n    generic :: operator(-) => sub\n  end type cell\n")
+    fb = lambda n, res: (f"  function {n}(a, b) result(r)\n    class(cell), intent(in) :: a, b\n    {res} :: r\n" + ("    r = .true.\n" if res == "logical" else "    r = a\n") + f"  end function {n}\n")
+    yield "operator bindings of one type", {"src/a.f90": mod("grid", gen + op("+", "add") + op("-", "sub"), fb("lt", "logical") + fb("le", "logical") + fb("add", "type(cell)") + fb("sub", "type(cell)"))}
     yield "stem clash with a numbered name", {"src/a.f90": mod("ma", "", s("x") ), "src/b.f90": mod("mb", "", s("x")), "src/c.f90": mod("mc", "", s("X"))}
 
 
@@ -44,6 +49,23 @@ def check(proj):
             if key in seen and seen[key] is not owner:
                 bad.append(f"{type(seen[key]).__name__} '{seen[key].name}' and {type(owner).__name__} '{owner.name}' share the output file {d}/{ident}.html")
             seen.setdefault(key, owner)
+    # anchors: two different entities never share page + fragment
+    frag = {}
+    for f in proj.files:
+        for ent in realrun.walk_entities(f):
+            try:
+                url = ent.get_url()
+            except Exception:
+                continue
+            if not url or "#" not in url:
+                continue
+            if url in frag and frag[url] is not ent and getattr(frag[url], "name", None) is not None:
+                a, b = frag[url], ent
+                # the same procedure listed through an interface and directly is one entity shown twice
+                if getattr(a, "procedure", a) is getattr(b, "procedure", b):
+                    continue
+                bad.append(f"{type(a).__name__} '{a.name}' and {type(b).__name__} '{b.name}' share the anchor {url}")
+            frag.setdefault(url, ent)
     return bad
 
 
@@ -75,3 +97,47 @@ def lemma_cases(maxlen=3, maxn=12):
                 return cnt, (seen[k], (s, n))
             seen[k] = (s, n)
     return cnt, None
+
+
+def quote_lemma(maxlen=3):
+    """urllib.parse.quote is injective on identifiers (letters, digits, '_', '~', and the operator characters FORD maps into names)"""
+    from urllib.parse import quote
+    alpha = "ab1_~<>=+-*/."
+    seen, n = {}, 0
+    for k in range(0, maxlen + 1):
+        for t in itertools.product(alpha, repeat=k):
+            w = "".join(t)
+            n += 1
+            q = quote(w)
+            if q in seen and seen[q] != w:
+                return n, {"a": seen[q], "b": w, "quote": q}
+            if "#" in q:
+                return n, {"a": w, "quote": q, "problem": "result contains '#'"}
+            seen[q] = w
+    return n, None
+
+
+def source_links():
+    """real end-to-end run: the 'Source File' link on every entity page serves the entity's own source file"""
+    import os, re
+    from bounded import site
+    files = {"src/core/Solver.f90": "module solver\n  !! in Solver.f90\n  integer :: s\nend module solver\n",
+             "src/util/grid.f90": "module grid\n  !! in grid.f90\n  integer :: g\nend module grid\n"}
+    with site.site(files, "src_dir: ./src\noutput_dir: ./doc\ngraph: false\nsearch: false\nincl_src: true\n") as (pd, status):
+        if not status.startswith("ok"):
+            return {"confirmed": True, "input": {"files": files}, "actual": f"run failed: {status}", "expected": "ok", "how": "end-to-end run"}
+        bad = []
+        for page, src in (("module/solver.html", "src/core/Solver.f90"), ("module/grid.html", "src/util/grid.f90")):
+            text = open(os.path.join(pd, "doc", page), encoding="utf-8").read()
+            m = re.search(r'href="([^"]*/src/[^"]*)"', text)
+            if not m:
+                bad.append(f"{page}: no source-file link")
+                continue
+            target = os.path.normpath(os.path.join(pd, "doc", os.path.dirname(page), m.group(1)))
+            if not os.path.exists(target):
+                bad.append(f"{page}: source-file link {m.group(1)} points to a file that was not written")
+            elif open(target).read() != files[src]:
+                bad.append(f"{page}: source-file link {m.group(1)} serves another file than {src}")
+        if bad:
+            return {"confirmed": True, "input": {"files": files}, "actual": bad, "expected": "the link serves the entity's own source file", "how": "end-to-end run with incl_src; link followed on disk"}
+    return None
